@@ -693,6 +693,8 @@ def step (cfg : Cfg) (st : St) : Op → St
     match py.dbFd with
     | none => st
     | some d => { st with w := { st.w with os := st.w.os.close d, py := { py with dbFd := none } } }
+  | .unconfigure "collect" =>                                   -- not in the current source; see fixes/F7.diff
+    { st with w := { st.w with py := { st.w.py with modules := [] } } }
   | .unconfigure _ => st
   | .gc =>
     -- finalisers of unreachable file objects / engines close their descriptors
